@@ -107,9 +107,15 @@ def c17_desc(rng):
             im["fields"].append(("device", pool[q % len(pool)]))
         if rng.random() < 0.25:
             im["fields"].append(("bus", rng.choice(["bus1", "bus2"])))
-    for s in desc["structs"]:
-        if rng.random() < 0.6:                     # more protocols -> more orders of get_protocols()
-            desc["impls"].append({"protocol": rng.choice(["uart", "spi", "eth", "lin"]), "type": s["name"], "name": s["name"] + "X",
+    # more protocols -> more orders of get_protocols(); in half of the schemas the protocol names come from a family that differs
+    # only in spelling style (can_fd / canFd / CanFd): whatever is derived from a name must keep them apart in every order
+    family = rng.choice([["uart", "spi", "eth", "lin"], ["can_fd", "canFd", "CanFd", "canfd"],
+                         ["spi_bus", "spiBus", "Spi_bus", "uart"], ["Uart", "uart", "UART", "lin"]])
+    variants = family[0] != "uart"
+    rng.shuffle(family)
+    for q, s in enumerate(desc["structs"] + (desc["structs"][:1] if variants and len(desc["structs"]) == 1 else [])):
+        if variants or rng.random() < 0.6:
+            desc["impls"].append({"protocol": family[q % len(family)] if variants else rng.choice(family), "type": s["name"], "name": s["name"] + "X" * (1 + q // max(1, len(desc["structs"]))),
                                   "fields": [("x", 1)], "signals": []})
     gen_schema.add_services(rng, desc)
     return desc
